@@ -1,6 +1,34 @@
 // Overlay-based self validation (thorough tier): seeded faults must be
-// reported naming the instance, benign variants must stay silent.
+// reported naming the instance, benign variants must stay silent. Variants
+// are applied to the in-memory source (packages.Config.Overlay); /repo is
+// never touched. Judged relative to the base run of the same invocation.
 package main
+
+import (
+	"fmt"
+	"os"
+	"path/filepath"
+	"runtime"
+	"runtime/debug"
+	"strings"
+)
+
+// A variant is one edit of one function of /repo's current source.
+type variant struct {
+	Name    string
+	File    string // relative to the repo root
+	Find    string // must occur exactly once in File, else the variant is skipped
+	Replace string
+	// Fault expectation: a new violation of Rule whose key contains Key.
+	// Empty Rule means the variant is benign and must add nothing.
+	Rule, Key string
+	// More edits applied together (cooperating sites).
+	More []edit
+}
+
+type edit struct{ File, Find, Replace string }
+
+var selftests = map[string][]variant{}
 
 type selfResult struct {
 	Seeded   int      `json:"seeded"`
@@ -13,6 +41,127 @@ type selfResult struct {
 	Cases    []string `json:"cases,omitempty"`
 }
 
+func applyEdits(repo string, v variant) (map[string][]byte, string) {
+	ov := map[string][]byte{}
+	edits := append([]edit{{v.File, v.Find, v.Replace}}, v.More...)
+	for _, e := range edits {
+		path := filepath.Join(repo, e.File)
+		src, ok := ov[path]
+		if !ok {
+			b, err := os.ReadFile(path)
+			if err != nil {
+				return nil, "file missing: " + e.File
+			}
+			src = b
+		}
+		if n := strings.Count(string(src), e.Find); n != 1 {
+			return nil, fmt.Sprintf("anchor occurs %d times in %s", n, e.File)
+		}
+		ov[path] = []byte(strings.Replace(string(src), e.Find, e.Replace, 1))
+	}
+	return ov, ""
+}
+
 func runSelftests(p *propDef, repo string, base []Obligation) *selfResult {
-	return &selfResult{}
+	res := &selfResult{}
+	baseViol := map[string]bool{}
+	for _, o := range base {
+		if o.Verdict == VIOLATION {
+			baseViol[o.Rule+"|"+o.Key] = true
+		}
+	}
+	only := os.Getenv("BIOCHECK_VARIANT")
+	for _, v := range selftests[p.ID] {
+		if only != "" && !strings.Contains(v.Name, only) {
+			continue
+		}
+		ov, why := applyEdits(repo, v)
+		if ov == nil {
+			res.Skipped++
+			res.Cases = append(res.Cases, "skipped "+v.Name+": "+why)
+			continue
+		}
+		c, err := load(repo, loadSpec{Label: "variant:" + v.Name}, ov)
+		if err != nil {
+			// a variant that no longer compiles against the current tree says nothing
+			res.Skipped++
+			res.Cases = append(res.Cases, "skipped "+v.Name+": does not type-check on the current tree: "+firstLine(err.Error()))
+			continue
+		}
+		c.Prop, c.Tier = p.ID, "thorough"
+		if err := runRules(p, c); err != nil {
+			res.Failed++
+			res.Failures = append(res.Failures, v.Name+": "+firstLine(err.Error()))
+			continue
+		}
+		var added, undecided []Obligation
+		for _, o := range c.Obs {
+			if o.Verdict == VIOLATION && !baseViol[o.Rule+"|"+o.Key] {
+				added = append(added, o)
+			}
+			if o.Verdict == UNDECIDED {
+				undecided = append(undecided, o)
+			}
+		}
+		if v.Rule != "" {
+			res.Seeded++
+			hit := false
+			for _, o := range added {
+				if o.Rule == v.Rule && strings.Contains(o.Key, v.Key) {
+					hit = true
+				}
+			}
+			if !hit && baseViol != nil {
+				for k := range baseViol {
+					if strings.HasPrefix(k, v.Rule+"|") && strings.Contains(k, v.Key) {
+						hit = true // already reported by the base run
+					}
+				}
+			}
+			if hit {
+				res.Detected++
+				res.Cases = append(res.Cases, fmt.Sprintf("fault %s: reported by %s at %s", v.Name, v.Rule, v.Key))
+			} else {
+				res.Failed++
+				got := []string{}
+				for _, o := range added {
+					got = append(got, o.Rule+" "+o.Key)
+				}
+				for _, o := range undecided {
+					got = append(got, "UNDECIDED "+o.Rule+" "+o.Key+": "+o.Reason)
+				}
+				res.Failures = append(res.Failures, fmt.Sprintf("seeded fault %s not reported as %s/%s (got: %s)", v.Name, v.Rule, v.Key, strings.Join(got, "; ")))
+			}
+		} else {
+			res.Benign++
+			if len(added) == 0 && len(undecided) == 0 && len(c.floorFail) == 0 {
+				res.Silent++
+				res.Cases = append(res.Cases, "benign "+v.Name+": silent")
+			} else {
+				res.Failed++
+				got := []string{}
+				for _, o := range added {
+					got = append(got, o.Rule+" "+o.Key+": "+o.Reason)
+				}
+				for _, o := range undecided {
+					got = append(got, "UNDECIDED "+o.Rule+" "+o.Key+": "+o.Reason)
+				}
+				got = append(got, c.floorFail...)
+				res.Failures = append(res.Failures, fmt.Sprintf("benign variant %s raised: %s", v.Name, strings.Join(got, "; ")))
+			}
+		}
+		c = nil
+		runtime.GC()
+		debug.FreeOSMemory()
+	}
+	fmt.Printf("  selftest: %d seeded faults (%d reported), %d benign variants (%d silent), %d skipped, %d failed\n",
+		res.Seeded, res.Detected, res.Benign, res.Silent, res.Skipped, res.Failed)
+	return res
+}
+
+func firstLine(s string) string {
+	if i := strings.IndexByte(s, '\n'); i >= 0 {
+		return s[:i]
+	}
+	return s
 }
